@@ -89,3 +89,43 @@ func VerifHarness_C03_indexed_set() {
 	_, err := ValidateIndexedAttestationIndicesSet(spec, ia)
 	zzverif.Assert((err == nil) == ok, "indexed attestation indices are accepted iff non-empty, sorted, unique and within the limit")
 }
+
+// ---- exported for harnesses of other packages (gossip validation) ----
+
+type VExitWorldT struct {
+	Spec  *common.Spec
+	Epc   *common.EpochsContext
+	State *BeaconStateView
+	raw   *BeaconState
+	vs    []vVal
+	cur   uint64
+}
+
+// VExitWorld: a two-validator phase0 world with symbolic lifecycle fields and fork record (see vLifecycleState).
+func VExitWorld() *VExitWorldT {
+	spec := common.VTinySpec()
+	cur := uint64(4)
+	raw, vs := vLifecycleState(spec, 2, cur)
+	vSymFork(spec, raw, cur)
+	st, _ := vStateToView(spec, raw)
+	return &VExitWorldT{Spec: spec, Epc: vLightEpc(spec, raw, st), State: st, raw: raw, vs: vs, cur: cur}
+}
+
+// RefExitValid is the spec's process_voluntary_exit validity for this world (same formula as VerifHarness_C03_voluntary_exit).
+func (w *VExitWorldT) RefExitValid(exit *SignedVoluntaryExit) bool {
+	idx := exit.Message.ValidatorIndex
+	if int(idx) >= len(w.vs) {
+		return false
+	}
+	i := int(zzverif.Concrete(uint64(idx)))
+	v := w.vs[i]
+	c := common.Epoch(w.cur)
+	dom := common.ComputeDomain(common.DOMAIN_VOLUNTARY_EXIT, vVersionAt(w.raw, exit.Message.Epoch), w.raw.GenesisValidatorsRoot)
+	root := common.ComputeSigningRoot(exit.Message.HashTreeRoot(tree.GetHashFn()), dom)
+	pub := w.raw.Validators[i].Pubkey
+	return v.act <= c && c < v.exit && v.exit == vFarFuture && c >= exit.Message.Epoch && c >= v.act+w.Spec.SHARD_COMMITTEE_PERIOD &&
+		zzverif.BLSPubkeyValid(pub) && zzverif.BLSSigValid(exit.Signature) && zzverif.BLSVerify(pub, root[:], exit.Signature)
+}
+
+// VSig: a signature with two symbolic bytes.
+func VSig() common.BLSSignature { return vSig1() }
